@@ -187,7 +187,7 @@ Definition q_close9 (a b : Q) : bool := Qle_bool (Qabs (a - b)%Q) (1 # 100000000
 (* expected outcome for one size on one axis: Some pct, or None = must be refused *)
 Definition ok_size_pct (a : size) (horizontal : bool) (dim : option Q) (obs : result size) : bool :=
   match spec_pct a horizontal (given dim), obs with
-  | Some v, Ok s => unit_eqb (s_unit s) PCT && q_close9 (s_val s) v
+  | Some v, Ok s => unit_eqb (s_unit s) PCT && q_rel_close (s_val s) v
   | None, Err ERelativization => true
   | _, _ => false
   end.
@@ -269,7 +269,7 @@ Fixpoint bools_eqb (a b : list bool) : bool :=
 Fixpoint sizes_close (exp : list Q) (got : list (size * bool)) : bool :=
   match exp, got with
   | [], [] => true
-  | v :: e', (s, _) :: g' => unit_eqb (s_unit s) PCT && q_close9 (s_val s) v && sizes_close e' g'
+  | v :: e', (s, _) :: g' => unit_eqb (s_unit s) PCT && q_rel_close (s_val s) v && sizes_close e' g'
   | _, _ => false
   end.
 
@@ -310,4 +310,12 @@ Definition ok_two (s : str) (obs : result (size * size)) : bool :=
       | _, _, _ => false
       end
   | _ => match obs with Err (ECrash _) => true | _ => false end   (* unpacking fails: ValueError *)
+  end.
+
+(* ---- C13: printed lengths observed in writer output (binary64 noise allowed: 1/200 + 1e-9) -------------- *)
+Definition tol200 : Q := ((1 # 200) + (1 # 1000000000))%Q.
+Definition ok_print_tol (v : Q) (u : unit_) (printed : str) : bool :=
+  match spec_split printed with
+  | Some (num, u') => unit_eqb u u' && canonical_number num && Qle_bool (Qabs (number_q num - v)%Q) tol200
+  | None => false
   end.
